@@ -1,10 +1,11 @@
 import JL.Generated.Fns
+import JL.Lemmas.TieAuto
 import JL.Tie.abstract_eq
 /-! tie: `abstract_ne`, as translated from the crate's current source, is the model's function - for every input -/
 namespace JL.Tie
 open JL
 
 theorem abstract_ne (a b : Json) : Gen.abstract_ne a b = JsOp.abstractNe a b := by
-  simp [Gen.abstract_ne, JsOp.abstractNe, abstract_eq]
+  tie_close [Gen.abstract_ne, JsOp.abstractNe, abstract_eq]
 
 end JL.Tie
